@@ -19,7 +19,11 @@ import (
 )
 
 // vfProdRegions names the known-finding regions the *case* lies in (see known_findings.json).
-func vfProdRegions(run *vfProdRun) []string {
+func vfProdRegions(run *vfProdRun) []string { return vfProdRegionsAt(run, 1<<62) }
+
+// vfProdRegionsAt computes the regions from what had happened BEFORE history position `before`: a symptom that shows
+// before the first connection-level failure / epoch bump is not excused by one that comes later.
+func vfProdRegionsAt(run *vfProdRun, before int64) []string {
 	c := run.c
 	var out []string
 	perBroker := map[int32]int{}
@@ -62,6 +66,9 @@ func vfProdRegions(run *vfProdRun) []string {
 		connErr, bump := false, false
 		answeredOK := map[string]bool{}
 		for _, e := range run.sim.hist.snapshot() {
+			if e.Seq >= before {
+				break
+			}
 			switch e.Kind {
 			case "produce-drop", "produce-silent", "broker-down":
 				connErr = true
@@ -505,7 +512,7 @@ func vfOracleC05(run *vfProdRun) *vfcore.Failure {
 			if b.first == first {
 				resend = true
 				if b.ids != ids {
-					return run.fail("resend-differs", "%s pid=%d epoch=%d: batch with first sequence %d was sent with messages %s and later with %s", e.Key, k.pid, k.epoch, first, b.ids, ids)
+					return run.failAt(e.Seq+1, "resend-differs", "%s pid=%d epoch=%d: batch with first sequence %d was sent with messages %s and later with %s", e.Key, k.pid, k.epoch, first, b.ids, ids)
 				}
 			}
 		}
@@ -514,7 +521,7 @@ func vfOracleC05(run *vfProdRun) *vfcore.Failure {
 		}
 		want := last[k]
 		if first != want {
-			return run.fail("sequence-gap", "%s pid=%d epoch=%d: new batch starts at sequence %d, expected %d (messages %s)", e.Key, k.pid, k.epoch, first, want, ids)
+			return run.failAt(e.Seq, "sequence-gap", "%s pid=%d epoch=%d: new batch starts at sequence %d, expected %d (messages %s)", e.Key, k.pid, k.epoch, first, want, ids)
 		}
 		last[k] = first + int64(e.N)
 		seenB[k] = append(seenB[k], batch{first, ids, e.N})
